@@ -11,6 +11,7 @@ THEOREMS = [
     "GoaktVerif.C11.witness_outputs",
     "GoaktVerif.C11.C11_refuted",
     "GoaktVerif.C11.C11_refuted_name_index",
+    "GoaktVerif.C11.C11_refuted_orphan_child",
     "GoaktVerif.C11.C11_partial",
 ]
 INPKG = ["actor/zz_verif_c11.go"]
@@ -186,11 +187,27 @@ def _shared_name(case):
     return stop and bool(tops & kids)
 
 
+def _parent_stopped_while_child_held(case):
+    """a stop of p is issued between bC.p.x and eC.p.x"""
+    held = set()
+    for t in case.split():
+        f = t.split(".")
+        if f[0] == "bC" and len(f) == 3:
+            held.add((f[1], f[2]))
+        elif f[0] == "eC" and len(f) == 3:
+            held.discard((f[1], f[2]))
+        elif f[0] in ("K", "bK") and len(f) == 2 and any(p == f[1] for p, _ in held):
+            return True
+    return False
+
+
 def classify(case, impl, why):
     if not why or not why.startswith("bad "):
         return None
     if _spawn_in_stop_window(case):
         return "C11-F1"
+    if _parent_stopped_while_child_held(case):
+        return "C11-F3"
     if _shared_name(case):
         return "C11-F2"
     return None
